@@ -928,7 +928,9 @@ class RWMH(_AbstractSampler):
                 learning_rate=learning_rate,
                 disable_progressbar=disable_progressbar,
             )
-        except Exception as e:
+        except BaseException as e:
+            # Also for a KeyboardInterrupt (during the first misfit evaluation, say): a
+            # start that did not succeed keeps no samples file open
             if self.samples is not None:
                 self.samples.close()
             raise e
@@ -1325,7 +1327,9 @@ class HMC(_AbstractSampler):
                 disable_progressbar=disable_progressbar,
             )
 
-        except Exception as e:
+        except BaseException as e:
+            # Also for a KeyboardInterrupt (during the first misfit evaluation, say): a
+            # start that did not succeed keeps no samples file open
             if self.samples is not None:
                 self.samples.close()
 
